@@ -46,7 +46,7 @@ class FlattenComponentsIFilter(BaseIFilter):
         ):
             glyph = glyphSet.get(glyphName)
             if glyph is not None:
-                flattened = _flattenGlyphComponents(
+                flattened |= _flattenGlyphComponents(
                     glyph, interpolatedLayer or glyphSet
                 )
 
